@@ -685,6 +685,13 @@ pub fn run(tier: Tier) -> i32 {
     static_part(rep);
     source_scan(rep);
     let utts = utterances();
+    let mut total_sched = 0u64;
+    let mut multi_trace = 0usize;
+    // the three deciding parts use different resources (stateright threads, child-process sweeps, scheduler children):
+    // they run side by side
+    std::thread::scope(|phase| {
+    let utts = &utts;
+    phase.spawn(move || {
     // ---------- HIST ----------
     let masks: Vec<u8> = (0..(1u16 << SETTERS)).map(|m| m as u8).collect();
     let depth = tier.pick(3usize, 4usize);
@@ -729,11 +736,12 @@ pub fn run(tier: Tier) -> i32 {
             }
         }
         if rep.violation_count() == 0 && counts.len() == 2 && counts[0] != counts[1] {
-            crate::elog!("MACHINERY: state counts differ between thread counts: {:?}", counts);
-            return 2;
+            rep.guard(false, &format!("state counts differ between thread counts: {:?}", counts));
         }
     }
     rep.sample(json!({"history": ["Set(1)", "Synth(0)", "Reset(1)", "Synth(0)"], "voice": voice_cfg(2).describe()}));
+    });
+    phase.spawn(move || {
     // ---------- setter histories (in child processes: a stale derived value can ask for absurd amounts of memory) ----------
     {
         let (total, nalpha, d) = setter_space(tier);
@@ -770,6 +778,7 @@ pub fn run(tier: Tier) -> i32 {
             }
         });
     }
+    });
     // ---------- SCHED ----------
     let mut jobs: Vec<(usize, Vec<usize>, usize, u8, u64)> = Vec::new(); // kind, tuple, bound, granularity, wall
     let tuples = all_tuples();
@@ -840,13 +849,14 @@ pub fn run(tier: Tier) -> i32 {
         }
     });
     let sr = sched_results.into_inner().unwrap();
-    let total_sched: u64 = sr.iter().map(|v| v["schedules"].as_u64().unwrap_or(0)).sum();
-    let multi_trace = sr.iter().filter(|v| v["distinct_traces"].as_u64().unwrap_or(0) >= 2).count();
+    total_sched = sr.iter().map(|v| v["schedules"].as_u64().unwrap_or(0)).sum();
+    multi_trace = sr.iter().filter(|v| v["distinct_traces"].as_u64().unwrap_or(0) >= 2).count();
     rep.note("sched", json!({"explorations": sr.iter().map(|v| json!({"kind": v["kind"], "programs": v["tuple"], "granularity": v["granularity"], "completed_preemption_bound": v["completed_bound"], "schedules": v["schedules"], "scheduling_points": v["points"], "distinct_interleavings": v["distinct_traces"], "points_per_agent": v["points_per_agent_default_schedule"], "blocked_events": v["blocked_events"], "capped": v["capped"]})).collect::<Vec<_>>(), "total_schedules": total_sched}));
     if let Some(v) = sr.first() {
         rep.note("sched_sites", v["sites"].clone());
     }
     rep.sample(json!({"programs": ["synthesize(u1)", "synthesize(u2)"], "schedule": "agent 0 runs to its 17th point, agent 1 preempts and runs to completion, agent 0 finishes"}));
+    });
     // ---------- supplementary free-running pass (sampling; never establishes absence, can only add violations) ----------
     // Real parallelism reaches interleavings between two hook sites (e.g. inside a lock-protected helper a change
     // adds), which the cooperative scheduler cannot produce. Every round uses a freshly built engine shared by all
